@@ -246,6 +246,32 @@ def build(tier="quick", seed=0):
                         lambda p: (p.value[0] == ["/abs/evidence#1.records.gz"] and bool(p.value[1]) and isinstance(p.value[1][0], MagicSeg) and p.value[1][0].codec == "gzip" and p.value[2] == [5], f"files written {p.value[0]}, leading segment {p.value[1]!r}, read back {p.value[2]!r}")),
                         replay=lambda w: {"call": "c11_hash_name", "args": {}}, functions=FU, mode="representative name"))
 
+    # '#' and ';' in front of a container extension: the container of a path follows its EXTENSION (what is written into <name>.avro is an Avro container,
+    # what is read from it is read as one), whatever other characters the name holds
+    for fname in ("evidence#1.avro", "exhibit;2.avro", "a#b;c.json", "plain.avro"):
+        name = f"C11.path.container[{fname}]"
+
+        def th_cont(fname=fname):
+            fresh()
+            D = it.call(RD, ["c11/rec", [("varint", "n")]], {})
+            path = "/abs/" + fname
+            w = it.call(base.g["RecordWriter"], [path], {})
+            wcls = it.type_name(w)
+            it.call(it.getattr_(w, "write"), [it.call(D, [], {"n": 5})], {})
+            it.call(it.getattr_(w, "close"), [], {})
+            files = sorted(it.vfs)
+            try:
+                rd = it.call(base.g["RecordReader"], [path], {})
+                rcls = it.type_name(rd)
+                back = [it.unbase(o.attrs["n"]) for o in it.iterate(rd)]
+            except PyRaise as e:
+                rcls, back = None, f"raised {e.cls_name}"
+            return files, wcls, rcls, back
+
+        want_w, want_r = ("AvroWriter", "AvroReader") if fname.endswith(".avro") else ("JsonfileWriter", "JsonfileReader")
+        pack.add(Obligation(name, lambda tier, name=name, th_cont=th_cont, fname=fname, want_w=want_w, want_r=want_r: prove_paths(name, th_cont, lambda p: (p.value == (["/abs/" + fname], want_w, want_r, [5]), f"{fname}: files {p.value[0]}, written by {p.value[1]}, read by {p.value[2]}, read back {p.value[3]!r} (the extension asks for {want_w} / {want_r})")),
+                            replay=lambda w, fname=fname: {"call": "c11_container_name", "args": {"fname": fname}}, functions=FU, mode="representative names"))
+
     # ------------------------------------------------------------------ adapter table for paths
     def th_adapter_table():
         out = {}
